@@ -93,6 +93,10 @@ func perr(op, path string, err error) error {
 }
 
 // fault counts the operation and returns the injected error if it is the one to fail.
+// (norace: the counters are bookkeeping of the shim, two readers of the
+// database may legitimately call into the file system at the same time)
+//
+//go:norace
 func (f *FS) fault(op, path string) error {
 	k := f.Ops
 	f.Ops++
